@@ -1,0 +1,6 @@
+//go:build !verif
+
+package kgo
+
+// verifEvent is a no-op outside of verification builds (see verif_event_on.go).
+func verifEvent(string, *Record, int64, int64) {}
